@@ -24,11 +24,15 @@ type c11Case struct {
 	Tail      int    `json:"tail,omitempty"`
 	CloseRace bool   `json:"close_race,omitempty"`
 	SlowMs    int    `json:"slow_ms,omitempty"`
+	Reopen    string `json:"reopen,omitempty"`
 }
 
 func (c c11Case) class() string {
 	if c.CloseRace {
 		return fmt.Sprintf("close-behind-data|sizes=%s|kinds=%s|batch=%s|n=%s|backend reads 1 msg per %dms", c.Sizes, c.Kinds, c.Batch, c11Bucket(c.C2S), c.SlowMs)
+	}
+	if c.Reopen != "" {
+		return fmt.Sprintf("open-A,open-B,A-ends(%s),open-C,traffic-on-B-and-C|inject=%v|v%d|sizes=%s|kinds=%s|batch=%s|poll=%s", c.Reopen, c.Inject, c.Version, c.Sizes, c.Kinds, c.Batch, c.Poll)
 	}
 	if c.Tail > 0 {
 		return fmt.Sprintf("inject=%v|v%d|sessions=%d|sizes=%s|kinds=%s|batch=%s|poll=%s|final-burst=%s+backend-close", c.Inject, c.Version, c.Sessions, c.Sizes, c.Kinds, c.Batch, c.Poll, c11Bucket(c.Tail))
@@ -142,6 +146,17 @@ func c11Cases(r *core.Run) []c11Case {
 		}
 		out = append(out, c)
 	}
+	// a session ends while another stays open, then a third is opened: B and C must not get mixed up
+	nReopen := r.Pick(20, 400)
+	for i := 0; i < nReopen; i++ {
+		c := c11Case{ID: fmt.Sprintf("c11-s%d-ro%d", r.Seed, i), Seed: rng.Int63(), Sessions: 2, Version: []int{1, 1, 1, 0}[rng.Intn(4)],
+			Reopen: []string{"client-close", "backend-close"}[i%2], Sizes: []string{"small", "edges"}[rng.Intn(2)], Kinds: kinds[rng.Intn(3)],
+			Batch: batches[rng.Intn(4)], Poll: polls[rng.Intn(4)], C2S: 2 + rng.Intn(60), S2C: 2 + rng.Intn(80), Inject: rng.Intn(6) == 0}
+		if c.Inject {
+			c.Kinds = "json"
+		}
+		out = append(out, c)
+	}
 	// close right behind data posts, backend reading slowly
 	nRace := r.Pick(24, 600)
 	for i := 0; i < nRace; i++ {
@@ -163,7 +178,7 @@ func c11Cases(r *core.Run) []c11Case {
 // C11 — shimmed websockets deliver every message once, in order, unchanged.
 func C11(r *core.Run) {
 	r.Level = "exploration"
-	r.SetRule("websockets.Proxy driven in-process (race-built worker, agent's GODEBUG defaults) against a real gorilla websocket backend; one case = one seeded message history over 1-2 shim sessions: text (valid UTF-8 incl. NUL, quotes, <>&, U+2028, 4-byte runes) and binary (all byte values, protocol v1) messages of sizes {0,1,125,126,127,65535,65536,65537,1 MiB,random}, client messages partitioned into data posts of 1-40 (some >10 = queue capacity, some spanning two sessions), backend bursts of 1-100 sent before / while / trickling during polls, one data post and one poll outstanding per session; every third history ends with a final backend burst of 1-30 messages (incl. 10, 11, 12, 30) sent while no poll is outstanding followed by a graceful backend close, after which polls must deliver the burst and then report the session closed; plus close-behind-data histories: 1-35 messages (more than the queue, or 1 MiB each) posted to a backend that reads one message per 5-20 ms, close posted right behind the last data post, all messages must arrive in order followed by a normal closure; with injection enabled JSON messages of 13 shapes around resource.headers; class = (injection, protocol version, sessions, size profile, kinds, post batching, poll timing)")
+	r.SetRule("websockets.Proxy driven in-process (race-built worker, agent's GODEBUG defaults) against a real gorilla websocket backend; one case = one seeded message history over 1-2 shim sessions: text (valid UTF-8 incl. NUL, quotes, <>&, U+2028, 4-byte runes) and binary (all byte values, protocol v1) messages of sizes {0,1,125,126,127,65535,65536,65537,1 MiB,random}, client messages partitioned into data posts of 1-40 (some >10 = queue capacity, some spanning two sessions), backend bursts of 1-100 sent before / while / trickling during polls, one data post and one poll outstanding per session; every third history ends with a final backend burst of 1-30 messages (incl. 10, 11, 12, 30) sent while no poll is outstanding followed by a graceful backend close, after which polls must deliver the burst and then report the session closed; plus reopen histories: open A, open B, traffic on A, A ends (client close | backend close reported by a poll), open C, then interleaved two-session traffic (posts spanning B and C) with every backend connection and every session's polls checked for exactly their own messages; plus close-behind-data histories: 1-35 messages (more than the queue, or 1 MiB each) posted to a backend that reads one message per 5-20 ms, close posted right behind the last data post, all messages must arrive in order followed by a normal closure; with injection enabled JSON messages of 13 shapes around resource.headers; class = (injection, protocol version, sessions, size profile, kinds, post batching, poll timing)")
 	r.Assume("binary messages are only generated under shim protocol version 1 (version 0 carries text only); JSON numbers in injected messages are float64-exact; injection is judged as safety only (an unchanged message is always acceptable)")
 	bin := r.MustBuild(r.BuildWorker())
 	godebug := shimGodebug(r)
@@ -218,6 +233,9 @@ func C11(r *core.Run) {
 		r.Add("messages_delivered_after_final_burst_and_backend_close", res.TailCarried)
 		r.Add("polls_after_backend_close", res.TailPolls)
 		r.Add("messages_delivered_ahead_of_close_to_slow_backend", res.CloseRaceMsgs)
+		if c.Reopen != "" {
+			r.Add("histories_opening_a_session_after_another_ended_while_a_third_is_live", 1)
+		}
 		if c.CloseRace {
 			r.Add("close_behind_data_histories", 1)
 		} else if c.Tail > 0 {
@@ -272,5 +290,5 @@ func C11(r *core.Run) {
 	r.Set("max_case_duration_ms", maxMs)
 	r.Set("worker_godebug", godebug)
 	r.JudgeRaces(core.ParseRaceLogs(filepath.Join(r.WorkDir, "race-")))
-	r.Finish(r.Pick(165, 4400))
+	r.Finish(r.Pick(185, 4800))
 }
